@@ -41,6 +41,13 @@ Proof.
 Qed.
 Print Assumptions C20_each_stream_keeps_its_guarantees.
 
+(** A stream next to a call (any API) on one graph value. *)
+Theorem C20_stream_and_call_independent : forall sc cf evs,
+  fst (mixrun sc cf evs) = srun sc (lefts _ _ evs) /\
+  snd (mixrun sc cf evs) = run cf (rights _ _ evs).
+Proof. exact mixed_independent. Qed.
+Print Assumptions C20_stream_and_call_independent.
+
 (** Non-vacuity: two for_each runs (forward and reverse) on the chain 0 -> 1, polled alternately. *)
 Example C20_example :
   let ops := [AddFn (mkFn 0 [] []); AddFn (mkFn 1 [] []); AddLogic 0 1] in
